@@ -216,6 +216,10 @@ def solution(draw, db):
             comps.append([a[0], a[1]])
     balance = draw(st.sampled_from(["Cl", "Cl", "none", "pH"]))
     cl = max(ceq - aeq, 1e-6)
+    if cl < 3e-4 and balance != "none":
+        # very dilute: the OH- / HCO3- of the requested pH can exceed the cation charge and the balancing ion would have
+        # to become negative (initial solution fails); such solutions keep their imbalance
+        balance = "none"
     if balance == "none":
         cl = float("%.4g" % (cl * draw(cg.uni(0.97, 1.03, 3))))
     else:
@@ -332,10 +336,13 @@ def render_pp(phases, n):
 EXCH_ION = {"Na": ("NaX", 1), "K": ("KX", 1), "Ca": ("CaX2", 2), "Mg": ("MgX2", 2), "Sr": ("SrX2", 2)}
 
 
-def tied_phase_ok(db, name, ion, sol_elements):
-    """Excluded by construction (reported to C08): an exchanger tied to a mineral whose exchange ion is in neither the
-    solution nor a phase with mass -> NULL dereference in build_min_exch (crash)."""
-    return ion in sol_elements
+def tied_phase_ok(db, name, sol_elements):
+    """Excluded by construction (C03 known finding `tied-sites-not-resynchronised`): a site population tied to a mineral
+    that holds an element the solution lacks.  The engine first moves 1e-10/coef mol of such a mineral into solution
+    (step.cpp add_pp_assemblage); the tied sites are re-synchronised with the reduced amount only when the model is rebuilt
+    (build_min_exch, first reaction step), not in later steps that re-use the model or after a second solver attempt, and
+    end proportion x 1e-10/coef mol above proportion x moles of the mineral."""
+    return all(e in sol_elements for e in phase_elements(db, name) if e not in ("H", "O"))
 
 
 def exch_phase_candidates(db, phases, sol_elements):
@@ -349,7 +356,7 @@ def exch_phase_candidates(db, phases, sol_elements):
         els = phase_elements(db, p["name"])
         for e in sorted(EXCH_ION):
             if els.get(e, 0.0) > 0:
-                if tied_phase_ok(db, p["name"], e, sol_elements):
+                if tied_phase_ok(db, p["name"], sol_elements):
                     out.append([p["name"], EXCH_ION[e][0], EXCH_ION[e][1], els[e]])
                 else:
                     excluded += 1
@@ -402,7 +409,7 @@ def render_exch(d, n, eq_sol=1):
 def surf(draw, db, phases, kin_rate, balanced, sol_elements):
     kinds = ["plain", "equil", "equil", "equil"]
     cand0 = [p["name"] for p in (phases or []) if not p["alt"] and not p["name"].endswith("(g)") and p["opt"] != "precipitate_only"]
-    cand = list(cand0)
+    cand = [nm for nm in cand0 if tied_phase_ok(db, nm, sol_elements)]
     if cand:
         kinds += ["phase", "phase"]
     if kin_rate:
